@@ -72,6 +72,9 @@ func (a *authorizer) AuthorizeTierOperation(
 	var decisionGetTier k8sauth.Decision
 	go func() {
 		defer wg.Done()
+		// Goroutine-local error: the three checks run concurrently and must not share the
+		// enclosing function's err variable.
+		var err error
 		attrs := k8sauth.AttributesRecord{
 			User:            attributes.GetUser(),
 			Verb:            "get",
@@ -105,6 +108,9 @@ func (a *authorizer) AuthorizeTierOperation(
 	}
 	go func() {
 		defer wg.Done()
+		// Goroutine-local error: the three checks run concurrently and must not share the
+		// enclosing function's err variable.
+		var err error
 		path := pathPrefix
 		if attributes.GetName() != "" {
 			path = pathPrefix + "/" + attributes.GetName()
@@ -131,6 +137,9 @@ func (a *authorizer) AuthorizeTierOperation(
 	}()
 	go func() {
 		defer wg.Done()
+		// Goroutine-local error: the three checks run concurrently and must not share the
+		// enclosing function's err variable.
+		var err error
 		name := tierName + ".*"
 		path := pathPrefix + "/" + name
 		attrs := k8sauth.AttributesRecord{
